@@ -3,6 +3,7 @@ import random
 
 from .. import campaign as C
 from .. import decodecheck as D
+from .. import sweeps as S
 from .. import suite_trace as ST
 
 
@@ -16,6 +17,10 @@ def run(ctx):
                                     basis_leaves=1 if q else 6)
     # plus uniform words (weighted by cube size rather than by group)
     words += [(rnd.getrandbits(32), None, 'uniform') for _ in range(4000 if q else 150000)]
+    # one known-good word per encoding class from the repository's tests + class-preserving variants: the cube members
+    # above mostly violate should-be-one/zero fields (UNPREDICTABLE, envelope only); these are judged exactly
+    cw = S.class_word_list(ctx.seed, 4 if q else 40)
+    words += [(w, None, 'classword') for th, w in cw if not th]
     groups, res = D.run_words(ctx, rnd, words, thumb=False)
     D.check_cube_class(res)
     # the repository's own tests as a trace source: every emulate_cycle() they perform, judged on the complete state
